@@ -403,3 +403,45 @@ func VerifC06_NeedMerge() {
 		verif_Assert(got, "any update merges into an empty main map")
 	}
 }
+
+// C06/C07: when the update map is merged into a rebuilt main map, the newest
+// record of every provider survives (three providers, updates spread over two
+// refreshes so that the second one crosses the merge threshold).
+func VerifC06_MergeThreshold() {
+	old := c06pids
+	c06pids = []peer.ID{"A", "B", "C"}
+	defer func() { c06pids = old }()
+	w := c06new()
+	set := func(ta, tb, tc int) {
+		for i, ti := range []int{ta, tb, tc} {
+			w.srcs[0].content[c06pids[i]] = c06entry{present: true, ti: ti}
+			w.srcs[1].content[c06pids[i]] = c06entry{}
+		}
+		w.cx.cancelled = false
+		verif_Assume(w.pc.Refresh(w.cx) == nil)
+	}
+	get := func(pid peer.ID) int {
+		got, err := w.pc.Get(context.Background(), pid)
+		verif_Assert(err == nil && got != nil, "a cached provider is returned")
+		if got == nil {
+			return -1
+		}
+		return c06timeIdx(got.LastAdvertisementTime)
+	}
+	set(1, 1, 1)
+	first := verif_Choose("updatedFirst", 0, 2)
+	t := []int{1, 1, 1}
+	t[first] = 2
+	set(t[0], t[1], t[2])
+	verif_Assert(get(c06pids[first]) == 2, "an updated provider is visible after the refresh")
+	t2 := []int{2, 2, 2}
+	if verif_Bool("firstAdvancesAgain") {
+		t2[first] = 3
+	}
+	set(t2[0], t2[1], t2[2]) // the other two advance: the update map is merged
+	verif_Reach("merged")
+	for i, pid := range c06pids {
+		verif_Assert(get(pid) == t2[i], "after the update map is merged every provider still shows its newest record")
+	}
+	verif_Assert(len(w.pc.List()) == 3 && w.pc.Len() >= 3, "all providers are listed")
+}
